@@ -368,6 +368,70 @@ var c13IsoProbes = []c13Iso{
 	{"empty module name", "m := import(\"\")\n", map[string]string{}, "empty module name"},
 }
 
+// c13ObjImporter is an embedder's own Importable handing out a ready-made object.
+type c13ObjImporter struct{ o tengo.Object }
+
+func (m c13ObjImporter) Import(string) (interface{}, error) { return m.o, nil }
+
+// objectModules: several modules supplied as plain immutable maps (no module-name entry) through
+// the embedder's own Importable; every import must yield its own module's table.
+func (c *c13) objectModules(r *fw.Rec, rng *rand.Rand) {
+	names := []string{"colors", "shapes", "wrap", "empty"}
+	tables := map[string]map[string]tengo.Object{
+		"colors": {"red": &tengo.Int{Value: 1}, "list": &tengo.Array{Value: []tengo.Object{&tengo.String{Value: "r"}}}},
+		"shapes": {"sq": &tengo.Int{Value: 4}},
+		"wrap":   {"inner": &tengo.ImmutableMap{Value: map[string]tengo.Object{"v": &tengo.String{Value: "b"}}}},
+		"empty":  {},
+	}
+	rng.Shuffle(len(names), func(i, j int) { names[i], names[j] = names[j], names[i] })
+	mm := tengo.NewModuleMap()
+	for _, n := range names {
+		mm.Add(n, c13ObjImporter{&tengo.ImmutableMap{Value: tables[n]}})
+	}
+	mm.AddSourceModule("user", []byte("s := import(\"shapes\")\nc := import(\"colors\")\nexport {sq: s.sq, red: c.red}\n"))
+	var sb strings.Builder
+	for i, n := range names {
+		sb.WriteString(fmt.Sprintf("m%d := import(\"%s\")\n", i, n))
+	}
+	sb.WriteString("u := import(\"user\")\nagain := import(\"" + names[0] + "\")\n")
+	s := tengo.NewScript([]byte(sb.String()))
+	s.SetImports(mm)
+	var cp *tengo.Compiled
+	err := safely(func() error {
+		var e error
+		if cp, e = s.Compile(); e != nil {
+			return e
+		}
+		return cp.RunContext(bg)
+	})
+	r.Eval()
+	r.Inc("object-modules")
+	r.Distinct("object-modules", strings.Join(names, ","))
+	detail := map[string]interface{}{"main": sb.String(), "module order": names}
+	if err != nil {
+		detail["error"] = err.Error()
+		r.Violate("object-module:error", "importing modules supplied as objects failed", detail)
+		return
+	}
+	want := func(n string) string { return canon(&tengo.ImmutableMap{Value: tables[n]}) }
+	for i, n := range names {
+		if got := canon(cp.Get(fmt.Sprintf("m%d", i)).Object()); got != want(n) {
+			detail["module"], detail["got"], detail["want"] = n, got, want(n)
+			r.Violate("object-module:wrong-table", "an import expression yields another module's table", detail)
+			return
+		}
+	}
+	if got := canon(cp.Get("again").Object()); got != want(names[0]) {
+		detail["module"], detail["got"], detail["want"] = names[0], got, want(names[0])
+		r.Violate("object-module:wrong-table", "an import expression yields another module's table", detail)
+		return
+	}
+	if got := canon(cp.Get("u").Object()); got != `I{"red":i1,"sq":i4}` {
+		detail["got"], detail["want"] = got, `I{"red":i1,"sq":i4}`
+		r.Violate("object-module:wrong-table", "a source module importing object modules sees the wrong tables", detail)
+	}
+}
+
 func (c *c13) isoCase(r *fw.Rec, idx int) {
 	p := c13IsoProbes[idx%len(c13IsoProbes)]
 	mm := tengo.NewModuleMap()
@@ -512,12 +576,16 @@ func (c *c13) RunCase(r *fw.Rec, cs fw.Case) {
 	case 4, 5, 6:
 		c.valueCase(r, rng, cs)
 	default:
+		if (cs.Index/8)%4 == 3 {
+			c.objectModules(r, rng)
+			return
+		}
 		c.isoCase(r, cs.Index/8)
 	}
 }
 
 func (c *c13) Finish(m *fw.Merged, tier string) {
-	for _, k := range []string{"graphs:cyclic", "graphs:acyclic", "module-values", "isolation-probes"} {
+	for _, k := range []string{"graphs:cyclic", "graphs:acyclic", "module-values", "isolation-probes", "object-modules"} {
 		if m.Counters[k] == 0 {
 			m.Fail("never observed: " + k)
 		}
